@@ -21,7 +21,7 @@
 
    The logs (dlog, hlog, flushed) record what was handed to whom; shist records the successful
    subscriptions (= the OnClose callbacks registered at the consumers). *)
-From Coq Require Import List Bool Arith PeanoNat.
+From Coq Require Import List Bool PeanoNat.
 Import ListNotations.
 
 Definition cid := nat.
